@@ -11,7 +11,7 @@ sec = f'''
 
 **Protocol.** Ten rounds of fresh sub-agents (rounds 1-2: two agents per property with one change each; rounds 3-7: one
 agent per property with two changes; rounds 8-9: one change per property; round 10, in the continuation session: one change
-for each of C05, C07, C09, C11, C12, C13, C15, C16, C17, C18, C19, C20; 292 changes in all).  Each agent saw only the text of one property and a scratch
+for each of C02, C05, C06, C07, C09, C10, C11, C12, C13, C14, C15, C16, C17, C18, C19, C20; 296 changes in all).  Each agent saw only the text of one property and a scratch
 copy of the crate - nothing from /verif - and had to produce a small, realistic change that breaks the property, keeps
 the crate compiling and keeps all 483 existing tests passing, needs something specific to manifest, and comes with a
 demonstration test.  In rounds 4 to 9 the agents were also given the one-line titles of the changes already tried for their
@@ -24,10 +24,12 @@ current tree.  The two round-1 changes for C15 patched the `DeduplicateTracker`,
 `deduplicate_namespaces` was rewritten (§11.3); they were reported by the C15 check at the time (one only after the
 known-finding signature had been narrowed, §11.5 item 11) and are replaced by C15-C .. C15-N.
 
-**Result.** Of the 292 changes, 215 were reported by the quick check of their property the first time it met them, 77
-were not (11 of the 12 of round 10 were reported at once - by /verif as committed, except that the C16 and C19 checks already
+**Result.** Of the 296 changes, 218 were reported by the quick check of their property the first time it met them, 78
+were not (14 of the 16 of round 10 were reported at once - by /verif as committed, except that the C16 and C19 checks already
 carried the normaliser clauses of section 6; the first rejection of C16-O is the older clause "token stream does not spell the string" -
-and C20-O was not: the construction programs never set an attribute before a declaration on the same element; before that: 10 of 40 in rounds 1-2, 4 of 40 in round 3, 10 of 40 in round 4, 10 of 40 in round 5, 17 of 40 in round 6, 13 of 40 in round 7, 5 of 20 in round 8 and 7 of 20 in round 9, where the agents were steered away from what
+C20-O was not: the construction programs never set an attribute before a declaration on the same element; C10-O was not
+either, although it is the very edit of C10-C: that one had only ever been reported through a single random input, which is the
+regression pattern described below, now answered with a deterministic family; before that: 10 of 40 in rounds 1-2, 4 of 40 in round 3, 10 of 40 in round 4, 10 of 40 in round 5, 17 of 40 in round 6, 13 of 40 in round 7, 5 of 20 in round 8 and 7 of 20 in round 9, where the agents were steered away from what
 had been tried).  Almost every miss was a gap in what the generators reach; a few were gaps in what is observed (C12-F, C12-J: the xml:id
 index of a clone / of a cloned store; C09-G: an accessor that panics killed the observer instead of being reported;
 C16-I: the Write-based entry point was only driven through a Vec; C07-J: a state that cannot be built was charged to
